@@ -346,6 +346,45 @@ def r5(ctx) -> None:
            f"`{iv}[0]` / `{iv}[1]` are the bounds as written by the user; they must be ordered (min/max or swap) before they are "
            "compared with the axis or clamped, otherwise a reversed interval selects nothing",
            construct=lib.short(lib.stmt_of(bad[0]), 90) if bad else f"for {iv} in intervals: lower, upper = min({iv}), max({iv})")
+    # an interval may be skipped only when it provably contains no axis point:
+    # min(interval) > last axis point, or max(interval) < first axis point (strict)
+    ax = f.params()[4]
+    last_forms = {f"{ax}[-1]", f"np.max({ax})", f"{ax}.max()", f"max({ax})"}
+    first_forms = {f"{ax}[0]", f"np.min({ax})", f"{ax}.min()", f"min({ax})"}
+
+    def bound_kind(e):
+        t = lib.xnorm(fl, e, lib.stmt_of(e))
+        ds = fl.reaching(e.id, lib.stmt_of(e)) if isinstance(e, ast.Name) else []
+        vals = {norm(d.value) + (str(d.path) if d.path else "") for d in ds if d.value is not None}
+        for d in ds:
+            if d.kind == "unpack" and isinstance(d.value, ast.Tuple) and len(d.path) == 1 and isinstance(d.path[0], int):
+                vals.add(norm(d.value.elts[d.path[0]]))
+        vals.add(t)
+        if vals & {f"min({iv})", f"np.min({iv})"}:
+            return "lower"
+        if vals & {f"max({iv})", f"np.max({iv})"}:
+            return "upper"
+        return None
+
+    skips = [n for n in lib.nodes(loop, ast.If) if n.body and isinstance(n.body[-1], ast.Continue) and not n.orelse and lib.field_of(n, loop) == "body"]
+    for g in skips:
+        atoms = g.test.values if isinstance(g.test, ast.BoolOp) and isinstance(g.test.op, ast.Or) else [g.test]
+        bad_atoms = []
+        for a in atoms:
+            good = False
+            if isinstance(a, ast.Compare) and len(a.ops) == 1 and isinstance(a.ops[0], (ast.Lt, ast.Gt)):
+                small, big = (a.left, a.comparators[0]) if isinstance(a.ops[0], ast.Lt) else (a.comparators[0], a.left)
+                if norm(small) in last_forms and bound_kind(big) == "lower":
+                    good = True
+                if norm(big) in first_forms and bound_kind(small) == "upper":
+                    good = True
+            if not good:
+                bad_atoms.append(norm(a))
+        ctx.ob("C08-R5", "_get_area/skip-only-empty-intervals", not bad_atoms, f, g,
+               "an interval is skipped only if it lies wholly beyond the axis (min(interval) > last point or max(interval) < first point); "
+               "any other test drops intervals that contain axis points", [f"unjustified skip condition: {x}" for x in bad_atoms] or None,
+               construct=lib.short(g.test, 110))
+    ctx.note(f"C08-R5: {len(skips)} skip guard(s) in _get_area examined") if hasattr(ctx, "note") else None
     cs = [c for c in lib.calls(loop) if norm(c.func).endswith("get_axis_slice_from_interval")]
     ctx.sites("C08-R5", "slice conversion in _get_area", len(cs), 1)
     for c in cs:
